@@ -69,6 +69,8 @@ func (r *Runner) replayLight(l *Line) lineResult {
 			w.lightBlock(in, lc, st)
 		case "undoblock":
 			w.lightUndo(in, lc, st)
+		case "restrict":
+			w.lightRestrict(in, lc, st)
 		default:
 			panic("unknown light step " + st.A)
 		}
@@ -384,3 +386,45 @@ func (w *World) lightUndo(in *Inst, lc *lightClient, st *Step) {
 	w.lightVerify(in, lc, props, "after Proof.Undo")
 }
 
+
+// lightRestrict: the client cuts its cached proof down to some of its leaves,
+// asked for in the order the specification chose (GetProofSubset keeps it).
+func (w *World) lightRestrict(in *Inst, lc *lightClient, st *Step) {
+	props := []string{"C14", "C08"}
+	pos := map[Hash]uint64{}
+	for i, h := range lc.H {
+		if i < len(lc.P.Targets) {
+			pos[h] = lc.P.Targets[i]
+		}
+	}
+	wantH := w.leafHashes(st.W)
+	wants := make([]uint64, len(wantH))
+	for i, h := range wantH {
+		p, ok := pos[h]
+		if !ok {
+			w.fail(props, in, "hold.pairs", fmt.Sprintf("before the restriction the client does not hold L%d", st.W[i]), nil, nil)
+			return
+		}
+		wants[i] = p
+	}
+	g := w.mon.begin(in, "GetProofSubset")
+	P := utreexo.Proof{Targets: g.U("proof.Targets", lc.P.Targets), Proof: g.H("proof.Proof", lc.P.Proof)}
+	hs := g.H("hashes", lc.H)
+	wa := g.U("wants", wants)
+	var rh []Hash
+	var rp utreexo.Proof
+	var err error
+	pan := protect(func() { rh, rp, err = utreexo.GetProofSubset(P, hs, wa, w.big(w.n)) })
+	g.end()
+	if pan != "" {
+		w.fail(props, in, "panic", "GetProofSubset panicked: "+pan, nil, nil)
+		return
+	}
+	if err != nil {
+		w.fail(props, in, "subset.error", "GetProofSubset of held leaves failed: "+err.Error(), nil, nil)
+		return
+	}
+	lc.H, lc.P = rh, rp
+	w.compareHolding(in, lc, st, w.rows(w.n), props, "after GetProofSubset")
+	w.lightVerify(in, lc, props, "after GetProofSubset")
+}
